@@ -199,6 +199,14 @@ def generate(rng, tier):
             lines.append([rng.choice(heads), body])
         if "S" not in [h for h, _ in lines]:
             lines.append(["S", "a"])
+        if rng.random() < 0.25:
+            # two heads whose right-hand sides differ only in their blanks: `ab` is one symbol, `a b` two
+            cand = [(h, b) for h, b in lines if "ab" in b]
+            h, b = rng.choice(cand) if cand else ("S", rng.choice(["ab | c", "c ab", "(ab)* c", "abc"]))
+            if not cand:
+                lines.append([h, b])
+            other = rng.choice([x for x in ["S", "A", "B"] if x != h])
+            lines.insert(rng.randrange(len(lines) + 1), [other, b.replace("abc", "a b c").replace("ab", "a b")])
         toks = [gen_token(rng) for _ in range(4)]
         yield {"fa": fa, "pda": pda, "fst": fst, "g": g, "ebnf": lines, "toks": toks, "nx": c20nx.gen(rng), "txt": c20txt.gen(rng)}
 
